@@ -321,7 +321,8 @@ struct SockEngine : Engine {
             bool send_failed = !simnet::fired.count("fault.sendto_error") ? false : true;
             // what was delivered, in order
             std::string dl; int first_true = -1; int strangers_before = 0;
-            for (auto& dv : simnet::delivered_log) { dl += fmt("%s%s,", labels[dv.first] ? "T:" : "F:", perts[dv.first].c_str()); if (labels[dv.first] && first_true < 0) first_true = dv.first; if (!labels[dv.first]) { st.inc("fault.stranger_delivered"); if (first_true < 0) ++strangers_before; st.inc("probe.stranger." + perts[dv.first].substr(0, perts[dv.first].find(':'))); } }
+            for (auto& dv : simnet::delivered_log) { dl += fmt("%s%s,", labels[dv.first] ? "T:" : "F:", perts[dv.first].c_str());
+                if (q.ipopt && perts[dv.first].compare(0, 10, "truncated:") == 0) { int n = atoi(perts[dv.first].c_str() + 10) - (q.l2 ? (q.vlan ? 18 : 14) : 0); if (n >= 20 && n < 24) { st.inc("probe.truncation_inside_ip_options"); if (&dv != &simnet::delivered_log[0]) st.inc("probe.truncation_inside_ip_options_after_other_frame"); } } if (labels[dv.first] && first_true < 0) first_true = dv.first; if (!labels[dv.first]) { st.inc("fault.stranger_delivered"); if (first_true < 0) ++strangers_before; st.inc("probe.stranger." + perts[dv.first].substr(0, perts[dv.first].find(':'))); } }
             tr.add(fmt("op %d stack=%s%s%s l4=%d T=%lld elapsed=%lld resp=%d delivered=[%s] faults=%zu exc=%s", op, q.l2 ? "eth," : "", q.vlan ? "vlan," : "", q.v6 ? "v6" : "v4", q.l4, (long long)T, (long long)elapsed, resp != 0, dl.c_str(), simnet::fired.size(), exc.c_str()));
             sig = mix64(sig, fnv1a(dl) ^ ((uint64_t)q.l4 << 8) ^ (q.l2 ? 1 : 0) ^ (q.vlan ? 2 : 0) ^ (q.v6 ? 4 : 0) ^ (resp ? 16 : 0) ^ (simnet::fired.size() << 20));
             if (strangers_before > 0 || !simnet::fired.empty()) nontrivial = true;
@@ -329,7 +330,13 @@ struct SockEngine : Engine {
             // C14 demands correct matching and memory safety, not exception freedom: a libtins exception (e.g. the accepted frame does
             // not parse) is counted; anything else escaping is a violation
             if (!exc.empty() && !tins_exc) return Verdict::bad("sock:foreign-exception:" + exc, "send_recv let a non-libtins exception escape", stepno);
-            if (!exc.empty()) { st.inc("probe.libtins_exception_escaped_send_recv"); continue; }
+            if (!exc.empty()) {
+                st.inc("probe.libtins_exception_escaped_send_recv");
+                // the only thing that can throw after the request left is the construction of the winner, i.e. some frame WAS accepted
+                int w = simnet::last_delivered;
+                if (!simnet::sent.empty() && w >= 0 && !labels[w]) return Verdict::bad("sock:stranger-accepted:" + perts[w].substr(0, perts[w].find(':')), fmt("frame '%s' (not a response to the request) was accepted by the matchers (building the packet from it then threw %s)", perts[w].c_str(), exc.c_str()), stepno);
+                continue;
+            }
             // ---- safety: only a TRUE frame may be returned, and it is the first TRUE frame delivered
             if (resp) {
                 st.inc("probe.response_returned");
